@@ -76,7 +76,7 @@ ASSUMPTIONS = [
     "server caching for some transformed tuples; the other reasons for a refusal (status filter, kvarn-cache-control, size, a query-dependent variant "
     "of a path-keyed item) need per-variant statuses/headers/preferences the fixture does not have: exercised by C04 (pipex.run)",
     "SendKind::send learns the URI a response was cached under from the request's extensions (extensions::InternalUri, put there by handle_cache: kvarn "
-    "100c33a): a caller that hands send a different request than the one handle_cache saw gets the rules of that request's path on the 416 page "
+    "31ad067): a caller that hands send a different request than the one handle_cache saw gets the rules of that request's path on the 416 page "
     "(kvarn's own callers pass the same request; not run otherwise)",
     "on the wire: wire_vary_advertised assumes that the operator's Package extensions leave `vary` alone (hypothesis; the ones of Extensions::new() do, "
     "observed); what send does besides (content-length, connection, version) is C08's subject and not in Model/VaryWire.v; the answers handle_connection "
@@ -126,7 +126,7 @@ LEVEL_TEXT = ("Coq theorems, for all rule sets (any number of rules, names, tran
               "wire_vary_advertised for what SendKind::send passes to the connection: for every history, every sanitize verdict and every range, each "
               "response with a non-empty body — the reply, a range cut out of it, or the 416 page that replaces it — carries vary: accept-encoding, "
               "range, <rule headers of the path cached under>, given Package extensions that leave vary alone; "
-              "wire_416_internal_route_v0_refuted: before kvarn 100c33a the 416 page of an internal route listed the rule headers of the request's "
+              "wire_416_internal_route_v0_refuted: before kvarn 31ad067 the 416 page of an internal route listed the rule headers of the request's "
               "own path (fixture history reproduced on the code + for every page); send_keeps_vary (send without replacement never changes vary); "
               "wire_not_modified_as_is (a 304 is sent as it is whatever the Range header, fix 9ae9b1a); "
               "wire_416_without_vary_v0_refuted: before the repair of send (fix 21f0154) the 416 page had no vary (fixture history reproduced on the "
@@ -805,7 +805,7 @@ def corpus_cases():
     cases.append(mk(cfg, [L(b"sv"), park(b"/hi", headers=[(b"accept-language", b"de"), (b"x-pub", b"m")]), pipe.clear_page(b"/./lang"), release()] + DL +
                     [L(b"de"), L(b"sv")] + DL, "corpus-internal-route", spec=False))
     # ... and on the wire: the 416 page that replaces a variant of the internal route lists the rule header of /./lang
-    # (x-pub before kvarn 100c33a: wire_416_internal_route_v0_refuted)
+    # (x-pub before kvarn 31ad067: wire_416_internal_route_v0_refuted)
     cfgw = config(pages, routes=routes, report=WIRE_REPORT)
     cases.append(mk(cfgw, [L(b"de"), L(b"de", more=[(b"range", b"bytes=100-200")]), L(b"de", more=[(b"range", b"bytes=0-1")]),
                            L(b"sv", t=b"/hej", more=[(b"range", b"bytes=100-200")]), L(b"sv", method=b"HEAD")],
